@@ -52,6 +52,10 @@ var c13Fixed = []struct {
 	{"decimal64 typedef narrowed by range", `typedef d { type decimal64 { fraction-digits 2; } } leaf l { type d { range "1..2"; } }`, true},
 	{"fraction-digits repeated on a type derived from a decimal64 typedef", `typedef d { type decimal64 { fraction-digits 2; } } leaf l { type d { fraction-digits 2; } }`, false},
 	{"other fraction-digits on a type derived from a decimal64 typedef", `typedef d { type decimal64 { fraction-digits 2; } } leaf l { type d { fraction-digits 4; range "1..2"; } }`, false},
+	// (the typedefs of these texts stand in a container: a name with the module's own prefix is looked up from the
+	// scope of the type statement outwards, like a bare name — RFC 6020 section 5.5)
+	{"local typedef named with the module's own prefix", `typedef t { type uint8 { range "1..10"; } default 7; } leaf l { type m:t; }`, true},
+	{"chain of local typedefs named with the module's own prefix", `typedef t0 { type string { length "1..4"; } } typedef t1 { type m:t0 { pattern "[a-z]*"; } } leaf l { type m:t1; }`, true},
 	{"fraction-digits on a typedef derived from a decimal64 typedef", `typedef d { type decimal64 { fraction-digits 2; } } typedef d2 { type d { fraction-digits 1; } } leaf l { type d2; }`, false},
 }
 
